@@ -50,6 +50,31 @@ func (r *patReader) Read(p []byte) (int, error) {
 	return n, nil
 }
 
+// sizesReader hands over its data in reads of exactly the given sizes (then the rest at once)
+type sizesReader struct {
+	data  []byte
+	sizes []int
+}
+
+func (r *sizesReader) Read(p []byte) (int, error) {
+	if len(r.data) == 0 {
+		return 0, io.EOF
+	}
+	n := len(r.data)
+	if len(r.sizes) > 0 {
+		n, r.sizes = r.sizes[0], r.sizes[1:]
+	}
+	if n > len(p) {
+		n = len(p)
+	}
+	if n > len(r.data) {
+		n = len(r.data)
+	}
+	copy(p, r.data[:n])
+	r.data = r.data[n:]
+	return n, nil
+}
+
 type loadObs struct {
 	Panic  string `json:"panic,omitempty"`
 	Site   string `json:"site,omitempty"`
@@ -208,6 +233,40 @@ func replayFormat(args []string) int {
 				s.bad("LoadProg accepted a file with a wrong magic or an unsupported version", "header:accepted", raw, o, true)
 			case c.Expect == "ok" && o.Err != "":
 				s.bad("LoadProg rejected a valid header: "+o.Err, "header:rejected", raw, o, true)
+			}
+		case "parts":
+			// a specification-assembled file delivered under an explicit partition (pat = the cut offsets): must load and re-dump identically
+			d := bytesOf(c.Bytes)
+			var sizes []int
+			prev := 0
+			for _, cut := range c.Pat {
+				sizes = append(sizes, cut-prev)
+				prev = cut
+			}
+			sizes = append(sizes, len(d)-prev)
+			pan, errs, same := "", "", false
+			func() {
+				defer func() {
+					if r := recover(); r != nil {
+						pan = fmt.Sprint(r)
+					}
+				}()
+				p, err := bcl.LoadProg(&sizesReader{data: append([]byte{}, d...), sizes: sizes}, "parts", bcl.OptOutput(io.Discard), bcl.OptLogger(io.Discard))
+				if err != nil {
+					errs = err.Error()
+					return
+				}
+				var b bytes.Buffer
+				p.Dump(&b)
+				same = bytes.Equal(b.Bytes(), d)
+			}()
+			switch {
+			case pan != "":
+				s.bad("LoadProg panicked under a partition of a valid file: "+pan, "parts:panic", raw, pan, true)
+			case errs != "":
+				s.bad("a valid file is rejected when delivered under this partition: "+errs, "parts:rejected", raw, errs, true)
+			case !same:
+				s.bad("the file loaded under this partition dumps differently", "parts:redump", raw, "", true)
 			}
 		case "bytes":
 			// a file assembled by the specification's encoder: the real loader must take it and write the same bytes again
